@@ -2,13 +2,13 @@ package symex
 
 import (
 	"fmt"
-	"sync"
 	"go/types"
 	"io"
 	"math"
 	"sort"
 	"strconv"
 	"strings"
+	"sync"
 
 	"verif/engine/smt"
 
@@ -265,6 +265,12 @@ func (c *Ctx) registerStd(tab map[string]intrinsicFn) {
 		}
 		return nil
 	}
+	tab["strconv.Itoa"] = func(c *Ctx, fn *ssa.Function, a []Value) Value {
+		return strconv.FormatInt(c.concInt(a[0].(*smt.Term), "strconv.Itoa"), 10)
+	}
+	tab["strconv.FormatInt"] = func(c *Ctx, fn *ssa.Function, a []Value) Value {
+		return strconv.FormatInt(c.concInt(a[0].(*smt.Term), "strconv.FormatInt"), int(c.concInt(a[1].(*smt.Term), "base")))
+	}
 	tab["reflect.TypeOf"] = func(c *Ctx, fn *ssa.Function, a []Value) Value {
 		iv, _ := a[0].(IfaceV)
 		n := "<nil>"
@@ -390,6 +396,21 @@ func (c *Ctx) symOfType(name string, T types.Type) *smt.Term {
 	so, ok := c.sortOf(T)
 	if !ok {
 		panic(c.abort("symbol %s of type %s", name, typeString(T)))
+	}
+	if _, seen := c.E.SymKinds[name]; !seen {
+		b := T.Underlying().(*types.Basic)
+		switch {
+		case b.Info()&types.IsBoolean != 0:
+			c.E.SymKinds[name] = "bool"
+		case b.Kind() == types.Float32:
+			c.E.SymKinds[name] = "f32"
+		case b.Info()&types.IsFloat != 0:
+			c.E.SymKinds[name] = "f64"
+		case isSigned(T):
+			c.E.SymKinds[name] = fmt.Sprintf("bv%ds", intWidth(b))
+		default:
+			c.E.SymKinds[name] = fmt.Sprintf("bv%du", intWidth(b))
+		}
 	}
 	if c.E.Concrete != nil {
 		return c.concreteSym(name, T, so)
@@ -619,6 +640,9 @@ func (c *Ctx) registerZZ(tab map[string]intrinsicFn) {
 			x = c.symOfType(name, T)
 		}
 		cond := c.St.And(c.St.BVSLe(lo, x), c.St.BVSLe(x, hi))
+		if lo.IsConst() && hi.IsConst() {
+			c.E.SymRanges[name] = [2]int64{lo.SVal(), hi.SVal()}
+		}
 		c.E.Assumptions[fmt.Sprintf("%s in [%d, %d]", name, lo.SVal(), hi.SVal())] = true
 		c.doAssume(cond)
 		return x
